@@ -831,7 +831,101 @@ static void sc_refused_save(vf_result *r)
 	    "accepted)", refused, accepted);
 }
 
-#define NSCEN 24
+/*
+ * A solved unknown asked for outside what was solved: an unknown reflection
+ * (scalar first guess, which covers every frequency) and a parameter
+ * correlated with it are solved on the fixture's three frequencies next to
+ * short, open and match.  At each of the three frequencies both answer with
+ * the value solved; below the first and above the last the call fails as
+ * documented: HUGE_VAL, EINVAL, one line through the error function.
+ */
+static void sc_solved_range(vf_result *r)
+{
+    fx_t *F = &c3_F;
+    const double complex truth = -0.55 + 0.35 * I;
+    static const int stdh[3] = { VNACAL_SHORT, VNACAL_OPEN, VNACAL_MATCH };
+    static const double gam[3] = { -1.0, 1.0, 0.0 };
+    static const double sig1[1] = { 0.05 };
+    double complex m[NF];
+    double complex *mp[1] = { m };
+    vnacal_new_t *vnp;
+    int g, u, cpar;
+
+    vf_desc(r, "an unknown reflection and a parameter correlated with it, "
+	    "solved on three frequencies, read at those and at frequencies "
+	    "below and above them");
+    vnp = vnacal_new_alloc(F->vcp, VNACAL_E12, 1, 1, NF);
+    g = vnacal_make_scalar_parameter(F->vcp, truth * (1.05 + 0.03 * I));
+    u = vnacal_make_unknown_parameter(F->vcp, g);
+    cpar = vnacal_make_correlated_parameter(F->vcp, u, NULL, 1, sig1);
+    if (vnp == NULL || g < 0 || u < 0 || cpar < 0 ||
+	    vnacal_new_set_frequency_vector(vnp, F->f3) != 0) {
+	vf_fail(r, "scenario-setup", "solved-range set-up failed");
+	return;
+    }
+    for (int s = 0; s < 5; ++s) {
+	double complex gv = s < 3 ? gam[s] : truth;
+	for (int k = 0; k < NF; ++k)
+	    m[k] = 0.03 + 0.9 * gv / (1.0 - 0.1 * gv);
+	if (vnacal_new_add_single_reflect_m(vnp, mp, 1, 1,
+		    s < 3 ? stdh[s] : s == 3 ? u : cpar, 1) != 0) {
+	    vf_fail(r, "scenario-setup", "standard rejected: %s",
+		    F->elog.count ? F->elog.msg[0] : "");
+	    return;
+	}
+    }
+    if (vnacal_new_solve(vnp) != 0) {
+	vf_fail(r, "scenario-setup", "solve failed: %s",
+		F->elog.count ? F->elog.msg[0] : "");
+	return;
+    }
+    ++r->transitions;
+    for (int which = 0; which < 2; ++which) {
+	const int h = which ? cpar : u;
+	const char *hn = which ? "correlated" : "unknown";
+	const double fq[7] = { F->f3[0], F->f3[1], F->f3[2],
+	    F->f3[0] / 10.0, F->f3[0] * 0.9, F->f3[2] * 1.1,
+	    F->f3[2] * 10.0 };
+	for (int q = 0; q < 7; ++q) {
+	    vf_errlog_reset(&F->elog);
+	    errno = 0;
+	    double complex v = vnacal_get_parameter_value(F->vcp, h, fq[q]);
+	    int e = errno;
+	    ++r->transitions;
+	    if (q < 3) {
+		if (creal(v) == HUGE_VAL || F->elog.nonwarn != 0)
+		    vf_fail(r, "solved-range:refused-inside", "the solved "
+			    "%s parameter is refused at %g Hz, one of the "
+			    "frequencies it was solved at (errno %d: %s)",
+			    hn, fq[q], e, F->elog.count ? F->elog.msg[0] :
+			    "");
+		else if (cabs(v - truth) > 1e-6)
+		    vf_fail(r, "solved-range:wrong-value", "the solved %s "
+			    "parameter reads %g%+gj at %g Hz, the standard "
+			    "measured there was %g%+gj", hn, creal(v),
+			    cimag(v), fq[q], creal(truth), cimag(truth));
+	    } else if (creal(v) != HUGE_VAL) {
+		vf_fail(r, "solved-range:answered-outside", "the %s parameter "
+			"solved on %g..%g Hz answers %g%+gj at %g Hz", hn,
+			F->f3[0], F->f3[2], creal(v), cimag(v), fq[q]);
+	    } else if (e != EINVAL) {
+		vf_fail(r, "solved-range:errno", "out-of-range read of the "
+			"solved %s parameter failed with errno %d, not "
+			"EINVAL", hn, e);
+	    } else if (F->elog.nonwarn != 1 || F->elog.bad_format) {
+		vf_fail(r, "solved-range:callback", "out-of-range read of "
+			"the solved %s parameter called the error function "
+			"%d times", hn, F->elog.nonwarn);
+	    }
+	    if (r->status != VF_OK)
+		return;
+	}
+    }
+    r->nontrivial = 1;
+    vf_outcome(r, "solved parameters answer on their frequencies only");
+}
+
+#define NSCEN 25
 static void run_scenario(int k, vf_result *r)
 {
     const char *err;
@@ -854,6 +948,7 @@ static void run_scenario(int k, vf_result *r)
     case 6: sc_indices(r); break;
     case 21: sc_param_indices(r); break;
     case 22: sc_refused_save(r); break;
+    case 23: sc_solved_range(r); break;
     case 13: case 14: case 15: case 16: case 17: case 18: case 19: case 20:
 	sc_degenerate_trl(k - 13, r);
 	break;
@@ -885,7 +980,7 @@ vf_driver vf_drv = {
 	"arguments moved to a boundary value on a fresh rich fixture, judged "
 	"by the failure value / errno class / callback rule transcribed from "
 	"the manual pages and by a digest of all objects before and after a "
-	"refused call; plus 23 late-failure, index and refused-save scenarios.  Non-trivial: "
+	"refused call; plus 24 late-failure, index, refused-save and solved-range scenarios.  Non-trivial: "
 	"valid calls (success, no non-warning callback), calls that must fail "
 	"by the documentation, and the scenarios; calls with alternative "
 	"values only get the generic checks (well-formed failure, callback "
